@@ -83,10 +83,11 @@ PRIVATE_INIT = re.compile(r'^(DictKeys\(|SortedDictKeys\(|thread_safe_cast<py::l
 def access_sites(repo: Path):
     checked = accessor_checked(repo)
     sites = []
+    index_sites.clear()
     for rel in WALKERS_OF_USER_CONTAINERS:
         src = strip_comments((repo / rel).read_text())
         counts: dict[tuple, int] = {}
-        for m in re.finditer(r'\b(List|Tuple|Dict)GetItem(?:As<[^>]*>)?\s*\(\s*(\w+)\s*,', src):
+        for m in re.finditer(r'\b(List|Tuple|Dict)GetItem(?:As<[^>]*>)?\s*\(\s*([\w.]+(?:->\w+)*)\s*,', src):
             acc, var = m.group(1) + 'GetItem', m.group(2)
             before = src[:m.start()]
             decl = list(re.finditer(r'(?:const\s+)?(?:auto|py::\w+)\s+' + re.escape(var) + r'\s*(?:=\s*([^;]*)|\{([^;]*)\});|\b'
@@ -100,7 +101,57 @@ def access_sites(repo: Path):
             key = (rel, acc, var)
             counts[key] = counts.get(key, 0) + 1
             sites.append((f'{rel}:{acc}({var})#{counts[key]}', immutable, private, checked[acc], True))
+            # how is the index bounded?  (only matters for accessors that are not bounds-checked)
+            d, k = 1, m.end()
+            while k < len(src) and d:
+                d += src[k] == '('
+                d -= src[k] == ')'
+                k += 1
+            index = re.sub(r'\s+', '', src[m.end():k - 1])
+            index_sites.append((f'{rel}:{acc}({var})#{counts[key]}', index_bound(before, index, acc), checked[acc]))
     return sites, checked
+
+
+index_sites: list = []
+
+
+def index_bound(before: str, index: str, acc: str) -> str:
+    """'const' (integer literal), 'key' (dict lookup), 'loop' (the variable of an enclosing `for (i = 0; i < n; ++i)`),
+    'guard' (a counter compared against a bound, with a throw, earlier in the same loop body), else 'none'"""
+    if acc == 'DictGetItem':
+        return 'key'
+    if re.fullmatch(r'\d+', index):
+        return 'const'
+    var = re.match(r'[A-Za-z_]\w*', index)
+    if not var:
+        return 'none'
+    v = re.escape(var.group(0))
+    # innermost enclosing block structure: walk back and find unclosed `for (...)` headers
+    depth = 0
+    k = len(before) - 1
+    while k >= 0:
+        c = before[k]
+        if c == '}':
+            depth += 1
+        elif c == '{':
+            if depth == 0:
+                head = before[max(0, k - 300):k]
+                mfor = re.search(r'for\s*\(([^{}]*)\)\s*$', head)
+                if mfor and re.search(r'\b' + v + r'\s*=\s*0\s*;\s*' + v + r'\s*<[^;]*;\s*(\+\+' + v + r'|' + v + r'\+\+)',
+                                      re.sub(r'\s+', ' ', mfor.group(1))):
+                    return 'loop'
+                if mfor and re.search(r'\b' + v + r'\s*=\s*\w+\s*-\s*1\s*;\s*' + v + r'\s*>=\s*0\s*;\s*(--' + v + r'|' + v + r'--)',
+                                      re.sub(r'\s+', ' ', mfor.group(1))):
+                    return 'loop'
+                if mfor:
+                    # a range-for whose body checks the counter before using it
+                    body = before[k:]
+                    if re.search(r'if\s*\(\s*' + v + r'\s*>=\s*[^)]*\)\s*(\[\[\w+\]\]\s*)?\{[^{}]*throw', body):
+                        return 'guard'
+            else:
+                depth -= 1
+        k -= 1
+    return 'none'
 
 
 def recursion(repo: Path):
@@ -168,6 +219,10 @@ namespace Optree.Generated
 def accessSites : List (String × LoopDesc) :=
   [{sep.join(f"({q(s)}, ⟨{b(i)}, {b(p)}, {b(c)}, {b(cb)}⟩)" for s, i, p, c, cb in sites)}]
 
+/-- how the index of every item access is bounded: (site, const | key | loop | guard | none, accessor is bounds-checked) -/
+def indexSites : List (String × String × Bool) :=
+  [{sep.join(f"({q(s)}, {q(bd)}, {b(c)})" for s, bd, c in index_sites)}]
+
 /-- self-recursive walkers: (function, has the depth guard) -/
 def recursiveWalkers : List (String × Bool) :=
   [{sep.join(f"({q(n)}, {b(g)})" for n, g in funcs)}]
@@ -184,7 +239,7 @@ end Optree.Generated
     f = outdir / 'Access.lean'
     if not f.exists() or f.read_text() != text:
         f.write_text(text)
-    return {'translator': 'access', 'accessor_checked': checked, 'sites': sites, 'recursive': funcs, 'guards': guards,
+    return {'translator': 'access', 'accessor_checked': checked, 'sites': sites, 'index_sites': list(index_sites), 'recursive': funcs, 'guards': guards,
             'constants': consts}
 
 
